@@ -147,6 +147,7 @@ type End struct {
 	discardSet    map[int]bool // one-shot indices of writes that succeed without delivering
 	lateFailSet   map[int]bool // one-shot indices of writes that are delivered and then reported failed
 	lateFailHold  func()       // if set, runs after such a write was delivered and before its failure is reported
+	ctxErrHold    func()       // if set, runs before a write that waited reports the end of its context
 	writeErr      error        // error returned by a failed Write (default ErrWrite)
 	// OnWriteEntry, if set (use SetOnWriteEntry), is called at the very start of Write, before
 	// any serialisation: parking here models a transport in which concurrent Write calls are
@@ -436,6 +437,12 @@ func (e *End) Write(ctx context.Context, rpc *Rpc) error {
 	case e.l.ch[dir] <- msg:
 	case <-ctx.Done():
 		err = ctx.Err()
+		e.mu.Lock()
+		hold := e.ctxErrHold
+		e.mu.Unlock()
+		if hold != nil {
+			hold()
+		}
 	case <-e.wfail:
 		err = e.werr()
 	case <-e.l.killed:
@@ -456,6 +463,14 @@ func (e *End) Write(ctx context.Context, rpc *Rpc) error {
 		return e.werr()
 	}
 	return nil
+}
+
+// SetCtxErrHold installs a function that runs when a write that was waiting for the peer gives up
+// because its context ended, before it returns: the time a transport takes to notice.
+func (e *End) SetCtxErrHold(f func()) {
+	e.mu.Lock()
+	e.ctxErrHold = f
+	e.mu.Unlock()
 }
 
 // SetLateFailHold installs a function that runs between the delivery of a write that is to be
